@@ -320,6 +320,26 @@ func checkC16(c c16Case, ctx *vCtx) *vFailure {
 		if rr.failed && !vIsDepthError(rr.err) {
 			return vFailf("%s: csv database-resolved failed with %q, expected the depth error", desc, rr.err)
 		}
+		// probe the effective depth exactly: books with one chain of H references fail iff H >= N
+		for _, h := range []int{1, 2, 3, 4, 5, 9, 10, 11} {
+			var pb strings.Builder
+			for i := 0; i < h; i++ {
+				next := fmt.Sprintf("p%d", i+1)
+				if i == h-1 {
+					next = "leaf"
+				}
+				fmt.Fprintf(&pb, "p%d:\n  %s: 1\n", i, next)
+			}
+			pp := filepath.Join(root, fmt.Sprintf("probe-%d.yaml", h))
+			write(pp, pb.String())
+			saved := global
+			global = append(append([]string{}, global...), "--database", pp) // a repeated flag: the last value wins
+			pr := run("csv", "database-resolved")
+			global = saved
+			if pr.failed != (h >= depthIdx) {
+				return vFailSig(c16Sig(c), "%s: the resolve depth should be %d (from %s), but a book with a chain of %d references gives failure=%v (%s)", desc, depthIdx, depthLevel, h, pr.failed, pr.err)
+			}
+		}
 	}
 	// 2. which log is read, 3. in which date format
 	q := run("report", "quantity")
